@@ -12,6 +12,7 @@ import importlib
 import json
 import os
 import re
+import shutil
 import subprocess
 import sys
 import time
@@ -148,6 +149,8 @@ def main():
     jobs = int(os.environ.get("VERIF_JOBS", "16"))
     assert prop in PROPS, prop
     t0 = time.time()
+    # replays of earlier runs are stale: every VIOLATION line of this run names a file written by this run
+    shutil.rmtree(os.path.join(HERE, "replays", prop), ignore_errors=True)
     known = load_known()
     baseline = load_baseline().get(prop, {})
     violations = []  # (replay_path, reproduced, text)
